@@ -513,8 +513,10 @@ package keeper
 //@   invariant #1 same:  pools == old(pools) && lptIndex == old(lptIndex) && nextSeq == old(nextSeq) && stdDenom == old(stdDenom) && prm == old(prm)
 //@ end
 
+// (C01, C02: a restarted chain that handed out a pool number twice would mint the liquidity token of an existing pool
+// against a deposit into another one)
 //@ func Keeper.verifGenesisRoundTrip(ctx)
-//@   property C12
+//@   property C01, C02, C12
 //@   requires paramsStored && has(nextSeq) && has(stdDenom) && poolsWF
 //@   modifies pools, lptIndex, nextSeq, stdDenom, prm
 //@   ensures fixpoint: pools == old(pools) && lptIndex == old(lptIndex) && nextSeq == old(nextSeq) && stdDenom == old(stdDenom) && prm == old(prm)
